@@ -204,6 +204,11 @@ def newTorrent (cfg : Cfg) (o : Order Name) (mdOrder : List Name) (e0 : Entry) (
       | none => ⟨{ entry := some e1 }, pre ++ cs, .errInit⟩
     else ⟨{ entry := some e1, tor := some ⟨status, false⟩ }, pre ++ cs, .ok⟩
 
+/-- `localFileEntry.Create` first removes the metadata an earlier incarnation of the entry left in the
+directory (everything but the last access time; `os.ReadDir` order: by name) -/
+def leftoverPlan (fs : FS Name) (dir : Path) : List (Call Name) :=
+  ([Name.status, Name.tmeta].filter (fun n => (fs.file? dir n).isSome)).map (Call.unlink dir)
+
 /-- `TorrentArchive.CreateTorrent` -/
 def createTorrent (cfg : Cfg) (o : Order Name) (mdOrder : List Name) (m : Mem) (fs : FS Name) : Out :=
   -- GetMetadata(_torrentmeta) on any state
@@ -226,7 +231,8 @@ def createTorrent (cfg : Cfg) (o : Order Name) (mdOrder : List Name) (m : Mem) (
     let c1 := latPlan cfg l.fs dir
     let mds1 : List Name := if latKnown l.fs dir then [Name.lat] else []
     let fs1 := applyAll l.fs c1
-    let c2 := mkdirAllPlan fs1 dir ++ [Call.openTrunc dir .data, Call.truncate dir .data cfg.blob.length]
+    let c2 := mkdirAllPlan fs1 dir ++ (leftoverPlan (applyAll fs1 (mkdirAllPlan fs1 dir)) dir ++
+      [Call.openTrunc dir .data, Call.truncate dir .data cfg.blob.length])
     let fs2 := applyAll fs1 c2
     -- SetMetadata(_torrentmeta) locks the new entry for writing: an old leftover access time is replaced
     let (e', tc) := touch cfg ⟨false, mds1, latStale cfg l.fs dir⟩ fs2
@@ -280,16 +286,27 @@ def restartPlan (fs : FS Name) : List (Call Name) :=
   let c1 := mkdirAllPlan fs [stateName false]
   c1 ++ mkdirAllPlan (applyAll fs c1) [stateName true]
 
+/-- `TorrentArchive.DeleteTorrent` = `Any().DeleteFile`: what the TTL clean-up of either directory and
+a cache eviction do to an entry. The entry leaves the file map; a torrent object that refers to it is
+not used any more. A directory without the blob file is not an entry: it is left alone. -/
+def evict (cfg : Cfg) (o : Order Name) (m : Mem) (fs : FS Name) : Out :=
+  let l := loadEntry cfg m fs [false, true]
+  match l.entry with
+  | none => ⟨{}, l.calls, .ok⟩
+  | some e => ⟨{}, l.calls ++ removeAllPlan l.fs o (entryDir cfg e.cache), .ok⟩
+
 inductive Op where
   | create
   | write (i : Nat) (p : Bytes)
   | restart
+  | evict
   deriving DecidableEq, Repr
 
 def exec (cfg : Cfg) {σ : Type} [DecidableEq σ] (sum : Bytes → σ) (o : Order Name) (mdOrder : List Name) (m : Mem) (fs : FS Name) : Op → Out
   | .create => createTorrent cfg o mdOrder m fs
   | .write i p => writePiece cfg sum o mdOrder m fs i p
   | .restart => ⟨{}, restartPlan fs, .ok⟩
+  | .evict => evict cfg o m fs
 
 def plan (cfg : Cfg) {σ : Type} [DecidableEq σ] (sum : Bytes → σ) (o : Order Name) (mdOrder : List Name) (m : Mem) (fs : FS Name) (op : Op) :
     List (Call Name) := (exec cfg sum o mdOrder m fs op).calls
